@@ -160,7 +160,7 @@ macro_rules! impl_dut {
                                 };
                                 (rem, Some(wr.to_vec()))
                             })*
-                            _ => panic!("harness: heapless capacity not instantiated"),
+                            _ => { eprintln!("harness: heapless capacity {} not instantiated", cap); std::process::exit(2) }
                         },
                     }
                 }));
@@ -194,7 +194,7 @@ macro_rules! impl_dut {
                     let _c = rec::Counted::new();
                     match n {
                         $($n => rec::block_on(iface.process::<$n, _>(&mut ad)),)*
-                        _ => panic!("harness: buffer size not instantiated"),
+                        _ => { eprintln!("harness: buffer size {} not instantiated", n); std::process::exit(2) }
                     }
                 }));
                 let mut evs = rec::take_log();
